@@ -22,7 +22,8 @@ RULE = (
     'envs.create) x histories of 3*ceil(L/r)+2 wrapped steps, 256 members with different schedules in one batch, every '
     'field compared with a plain-Python episode model after every wrapped step; same for EvalWrapper metrics. sampled: '
     'Hypothesis-drawn 24-bit schedules, L <= 20, r <= 4, 8 members, drawn action sequences, through wrap/create + EvalWrapper, '
-    'acting.generate_unroll (transition chaining, discount, extras) and acting.Evaluator.run_evaluation. Each (schedule, L, r, '
+    'acting.generate_unroll (transition chaining, discount, extras) and acting.Evaluator.run_evaluation; envs.create with '
+    'episode_length=None (no EpisodeWrapper) equals, field by field, the same env with a time limit of 10**6 that is never reached. Each (schedule, L, r, '
     'sticky, path) history is distinct. Non-trivial: history contains a termination and a truncation, or a termination in the '
     'middle of an action repeat, or done on consecutive wrapped steps.')
 ASSUMPTIONS = [
